@@ -39,6 +39,7 @@ type caseOp struct {
 	Origin string            `json:"origin,omitempty"`
 	Edge   string            `json:"edge,omitempty"`
 	Expect []string          `json:"expect,omitempty"` // declared schema (valid programs)
+	Calls  []CallIface       `json:"calls,omitempty"`  // declared interfaces (valid programs): call-level validation
 	ID     int               `json:"id"`
 	NoTool bool              `json:"no_tool,omitempty"` // lexer/parser streams only
 }
@@ -356,7 +357,7 @@ func runtimeLocus(msg string) string {
 func main() {
 	o := common.ParseOpts()
 	res := common.NewResult("C16", o)
-	res.Streams = []string{"lex", "parse", "tool", "compile", "schema", "roundtrip", "bindings"}
+	res.Streams = []string{"lex", "parse", "tool", "compile", "schema", "roundtrip", "call", "bindings"}
 	rng := o.Rand()
 	syscall.Setrlimit(syscall.RLIMIT_CORE, &syscall.Rlimit{Cur: 0, Max: 0}) // children abort on SIGQUIT: no core files
 	keepTmp = o.Extra == "keep"
@@ -568,6 +569,7 @@ func progCase(p *Prog, rng *rand.Rand, plain bool) *caseOp {
 		}
 	}
 	sort.Strings(c.Expect)
+	c.Calls = p.CallIfaces()
 	for k, v := range p.Feats {
 		featTotal[k] += v
 	}
